@@ -272,9 +272,11 @@ def _mk(fam, tag, items, inputs, extra_tags=()):
         # DOS line endings: a path is read with universal newlines, a
         # StringIO hands the '\r' through to the parser
         text = text.replace('\n', '\r\n')
-    elif tag == 'bter':
+    elif tag in ('bter', 'cbt'):
         # unpadded TER records as written by PDB2PQR/GROMACS
         text = text.replace('TER   \n', 'TER\n')
+        if tag == 'cbt':
+            text = text.replace('\n', '\r\n')
     natoms = sum(1 for k, _ in items if k == 'A')
     if natoms < 4:
         return
@@ -299,6 +301,7 @@ def _family(fam, base, inputs, nvar, salt):
         ('ion', lambda: v_ion_near_acid(base)),
         ('crlf', lambda: list(base)),
         ('bter', lambda: v_drop_oxt(base)),
+        ('cbt', lambda: v_drop_oxt(base)),
     ]
     for j in range(nvar):
         tag, fn = makers[(salt + j * 3) % len(makers)]
@@ -311,10 +314,10 @@ def build(repo, size='full'):
     inputs = []
     salt = 0
 
-    def fam(name, base, nvar=3):
+    def fam(name, base, nvar=3, limit=320):
         nonlocal salt
         natoms = sum(1 for k, _ in base if k == 'A')
-        if natoms < 8 or natoms > 320:
+        if natoms < 8 or natoms > limit:
             return
         _family(name, base, inputs, nvar, salt)
         salt += 1
@@ -323,6 +326,7 @@ def build(repo, size='full'):
     # coupled Asp25 A/B + ligand in 1HPX
     c = [a.xyz for a in find_atoms(hpx, 'ASP', 'CG', resnum=25)]
     fam('hpx_asp25', sphere(hpx, c, 7.0))
+    fam('hpx_asp25s', sphere(hpx, c, 4.0, keep_water=0), nvar=2)
     kni = [a.xyz for a in find_atoms(hpx, 'KNI')]
     if kni:
         fam('hpx_kni', sphere(hpx, kni[::6], 5.0))
@@ -330,6 +334,9 @@ def build(repo, size='full'):
     c = [a.xyz for a in find_atoms(ftj, 'GLU', 'CD', resnum=193)]
     c += [a.xyz for a in find_atoms(ftj, 'GLU', 'CD', resnum=274)]
     fam('ftj_glu', sphere(ftj, c, 8.0))
+    # large enough to keep the three-group non-covalently coupled system
+    # GLU 193 / ligand GLU C / CD of the whole protein
+    fam('ftj_sys3', sphere(ftj, c, 14.0, keep_water=0), nvar=0, limit=900)
     c = [a.xyz for a in find_atoms(ftj, 'ZN')]
     fam('ftj_zn', sphere(ftj, c, 9.0))
     # 4DFR: MTX (covalently coupled ligand groups), Ca, Cl
@@ -337,6 +344,8 @@ def build(repo, size='full'):
         m = [a.xyz for a in find_atoms(dfr, 'MTX', chain=ch)]
         if m:
             fam('dfr_mtx' + ch.lower(), sphere(dfr, m[::5], 5.0))
+            if ch == 'A':
+                fam('dfr_mtxs', sphere(dfr, m[::5], 3.2, keep_water=0), nvar=2)
     c = [a.xyz for a in find_atoms(dfr, 'CA', tag='HETATM')]
     fam('dfr_ca', sphere(dfr, c, 9.0))
     c = [a.xyz for a in find_atoms(dfr, 'CL', tag='HETATM')][:1]
